@@ -174,7 +174,10 @@ static void fill_cfg(cfg_t *c)
 	for (int p = 0; p < n; ++p) {
 	    switch (c->z0set) {
 	    case 0: c->z0[f][p] = 50.0; break;
-	    case 1: c->z0[f][p] = real_z0[p]; break;
+	    /* with an odd number of ports (3, 5) the last port has the
+	       impedance of the first again */
+	    case 1: c->z0[f][p] = c->ports >= 3 && c->ports % 2 == 1 &&
+			p == c->ports - 1 ? real_z0[0] : real_z0[p]; break;
 	    case 2: c->z0[f][p] = cplx_z0[p]; break;
 	    /* equal on all ports (Touchstone 1 can carry it) but needing
 	       nine digits: shows with which precision z0 is printed */
